@@ -16,6 +16,7 @@ def gather(ctx, mode, tz="UTC", scale=1.0):
             "seed": ctx.seed * 4099 + k * 11 + len(mode), "mode": mode,
             "curated": {"stride": stride, "offset": (k * (stride // core.NCPU) + ctx.seed) % stride},
             "random": int((2400 if quick else 48000) * scale) // core.NCPU,
+            "exact": (int((800 if quick else 16000) * scale) // core.NCPU) if mode in ("ticks", "nice") else 0,
             "tiny": (int((2400 if quick else 48000) * scale) // core.NCPU) if mode == "map" else 0}})
     recs = []
     for out in core.run_drivers_parallel(jobs):
